@@ -122,20 +122,28 @@ void ep8_norm_sim(ep8_t *r, const ep8_t *t, int n) {
 			fp8_null(a[i]);
 			fp8_new(a[i]);
 			fp8_copy(a[i], t[i]->z);
+			if (ep8_is_infty(t[i])) {
+				/* Keep the point at infinity out of the inversion. */
+				fp8_set_dig(a[i], 1);
+			}
 		}
 
 		fp8_inv_sim(a, (const fp8_t *)a, n);
 
 		for (i = 0; i < n; i++) {
+			if (ep8_is_infty(t[i])) {
+				ep8_set_infty(r[i]);
+				continue;
+			}
 			fp8_copy(r[i]->x, t[i]->x);
 			fp8_copy(r[i]->y, t[i]->y);
-			if (!ep8_is_infty(t[i])) {
-				fp8_copy(r[i]->z, a[i]);
-			}
+			fp8_copy(r[i]->z, a[i]);
 		}
 #if EP_ADD == PROJC || EP_ADD == JACOB || !defined(STRIP)
 		for (i = 0; i < n; i++) {
-			ep8_norm_imp(r[i], r[i], 1);
+			if (!ep8_is_infty(r[i])) {
+				ep8_norm_imp(r[i], r[i], 1);
+			}
 		}
 #endif /* EP_ADD == PROJC */
 	}
